@@ -858,7 +858,21 @@ fn fetched_block_buffers_never_stop_the_verification_thread() {
             // transactions: only what Transaction::validate accepts goes on to the consensus thread
             let good_tx = honest.transactions.iter().find(|tx| tx.transaction_type == TransactionType::Normal).unwrap().clone();
             let mut bad_tx = good_tx.clone(); bad_tx.signature = [3u8; 64];
-            for (what, tx, expect_forward) in [("a transaction with a forged signature", bad_tx, false), ("a valid transaction", good_tx, true)] {
+            // transactions of the types only a block may generate, sent loose by a peer
+            let mut loose: Vec<(String, Transaction, bool)> = vec![];
+            for ty in [TransactionType::Fee, TransactionType::Issuance, TransactionType::ATR, TransactionType::SPV] {
+                use crate::core::consensus::slip::Slip;
+                let (pk, sk) = { let w = t.wallet_lock.read().await; (w.public_key, w.private_key) };
+                let mut x = Transaction::default();
+                x.transaction_type = ty;
+                if ty != TransactionType::SPV { let mut o = Slip::default(); o.public_key = pk; o.amount = 1_000_000; x.add_to_slip(o); }
+                x.sign(&sk);
+                loose.push((format!("a loose {:?}-typed transaction without inputs{}", ty, if ty != TransactionType::SPV { " paying 1000000 nolan" } else { "" }), x, false));
+            }
+            loose.push(("a transaction with a forged signature".to_string(), bad_tx, false));
+            loose.push(("a valid transaction".to_string(), good_tx, true));
+            for (what, tx, expect_forward) in loose {
+                let what = what.as_str();
                 let r = futures::FutureExt::catch_unwind(std::panic::AssertUnwindSafe(vt.verify_tx(tx))).await;
                 if r.is_err() { let _ = tx_done.send(Some(format!("VerificationThread::verify_tx panicked on {}", what))); return; }
                 let mut forwarded = 0;
